@@ -45,7 +45,9 @@ META = {
                     "POSIX"],
     "rule": ("client paths = token sequences over {/ . .. %2F %2f %2E %2e %5C ~ ~joe ~ann a f x secret e-acute %00 % %25 ...} "
              "x root client paths {/, /srv/, /srv/a/, srv} x {plain, VFS}; exhaustive to length 3 (quick) / 4 (thorough) over a core "
-             "alphabet, then random longer ones; non-trivial = contains '.', '%', '~', NUL or a non-ASCII byte"),
+             "alphabet, then random longer ones; non-trivial = contains '.', '%', '~', NUL or a non-ASCII byte; "
+             "jail: roots at depth 0/1/2 over real control directories x candidates {inside, equal, parent, unrelated sibling, "
+             "string-prefix siblings name-x name.x names name%20x name/../name-x} x trailing slash x {filtered, chroot, local}"),
 }
 SHARD = 250
 
@@ -62,6 +64,10 @@ RCPS = ["/", "/srv/", "/srv/a/", "srv", "/a b", ""]
 
 WITNESSES = [b"..%2Fsecret/x", b"%%%332E%%%332E/secret/x", b"a/..%2F..%2Ff", b"%2E%2E%2Fsecret%2Fx", b"~joe/..%2F..%2Fsecret/x",
              b"..%2f..%2F..%2f..%2F..%2Ff", b".%2E%2Fx"]
+
+# locations (below T/j) that hold a real control directory
+JAIL_LOCS = [""] + [pre + n for pre in ("", "d/") for n in
+                    ("proj", "proj/in", "proj-x", "proj.x", "projs", "proj x", "other")] + ["d"]
 
 _state = {}
 _model_env = {}     # survives teardown(): model_term is evaluated after the run
@@ -124,14 +130,29 @@ def setup(scratch):
     _state["base_path"] = factory.base_path
     _state["chroot_url"] = factory.cleanups[0].__self__.get_url()
     _model_env["T"] = T
+    # second served tree T/j with REAL control directories, for the jail cases
+    from breezy import controldir
+    J = os.path.join(T, "j")
+    fmt = controldir.format_registry.make_controldir("2a")
+    for loc in JAIL_LOCS:
+        d = os.path.join(J, loc) if loc else J
+        os.makedirs(d, exist_ok=True)
+    for loc in JAIL_LOCS:
+        controldir.ControlDir.create("file://" + (os.path.join(J, loc) if loc else J).replace(" ", "%20") + "/", format=fmt)
+    local2 = _mod_transport.get_transport_from_url("file://" + J + "/")
+    factory2 = server.BzrServerFactory(userdir_expander=lambda p: p)
+    factory2._make_backing_transport(local2)
+    _state["factory2"] = factory2
+    _state["jroots"] = {0: factory2.transport.base, 1: factory2.cleanups[0].__self__.get_url(), 2: "file://" + J + "/"}
     # the Coq side (Model/Jail.v: run_case_T / std_homes) derives base_path and the user database from T
     if factory.base_path != T + "/" + S + "/":
         raise RuntimeError("unexpected base_path %r" % (factory.base_path,))
 
 
 def teardown():
-    f = _state.get("factory")
-    if f is not None:
+    for f in (_state.get("factory2"), _state.get("factory")):
+        if f is None:
+            continue
         for c in reversed(f.cleanups):
             try:
                 c()
@@ -194,6 +215,46 @@ def _jail_cases(rng, n):
     return out[:n]
 
 
+def _real(cand):
+    """Where a candidate URL path really is (segments below the server root)."""
+    out = []
+    for seg in cand.replace("%20", " ").split("/"):
+        if seg == "..":
+            out = out[:-1]
+        elif seg not in ("", "."):
+            out.append(seg)
+    return out
+
+
+def _jail2_cases():
+    out = []
+    for P in ("", "d"):
+        pre = P + "/" if P else ""
+        root = pre + "proj"
+        cands = [pre + "proj/in", pre + "proj", P, pre + "other", pre + "proj-x", pre + "proj.x", pre + "projs",
+                 pre + "proj%20x", pre + "proj/../proj-x", pre + "proj/in/../../proj.x", pre + "proj/in/../../projs"]
+        for rsrv in (0, 1, 2):
+            for csrv in (0, 1, 2):
+                for cand in cands:
+                    for rs in ("", "/"):
+                        for cs in ("", "/"):
+                            if (rs or cs) and rsrv != csrv:
+                                continue        # trailing-slash variants on the same server only
+                            if cs and not cand:
+                                continue
+                            out.append({"kind": "jail2", "jail": True, "rsrv": rsrv, "root": root + rs,
+                                        "csrv": csrv, "cand": cand + cs, "real_root": _real(root), "real": _real(cand)})
+        for cand in cands[:6]:
+            out.append({"kind": "jail2", "jail": False, "rsrv": 0, "root": root, "csrv": 0, "cand": cand,
+                        "real_root": _real(root), "real": _real(cand)})
+    # the chroot root itself as the jail (what the server does by default): everything on that server is inside
+    for srv in (0, 1, 2):
+        for cand in ("", "proj", "d/proj-x", "other/"):
+            out.append({"kind": "jail2", "jail": True, "rsrv": srv, "root": "", "csrv": srv, "cand": cand,
+                        "real_root": [], "real": _real(cand)})
+    return out
+
+
 def cases(rng, tier):
     import itertools
     maxlen = 3 if tier == "quick" else 4
@@ -215,7 +276,9 @@ def cases(rng, tier):
             continue
         rcp = rng.choice(RCPS) if rng.random() < 0.5 else "/"
         yield _path_case(rcp, _with_root(rng, rcp, b"".join(toks)), rng.random() < 0.6)
-    for c in _jail_cases(rng, 60 if tier == "quick" else 168):
+    for c in _jail2_cases():
+        yield c
+    for c in _jail_cases(rng, 168):      # all of them: 'a' vs 'ab' is a string-prefix sibling
         yield c
 
 
@@ -263,6 +326,37 @@ def impl(inp):
     from dromedary import urlutils
     bt = _state["bt"]
     log = _state["log"]
+    if inp["kind"] == "jail2":
+        from breezy import transport as _mod_transport
+        from breezy.bzr import bzrdir
+        jr = _state["jroots"]
+        root_t = _mod_transport.get_transport_from_url(jr[inp["rsrv"]] + inp["root"])
+        target = _mod_transport.get_transport_from_url(jr[inp["csrv"]] + inp["cand"])
+        if not target.base.startswith(jr[inp["csrv"]]):
+            raise RuntimeError("candidate left its server root: %r" % (target.base,))
+        r = request.SmartServerRequest(_state["factory2"].transport, "/", jail_root=root_t)
+        if inp["jail"]:
+            r.setup_jail()
+        try:
+            # a LocalTransport jail root refuses a non-file URL with InvalidURL instead of
+            # PathNotChild/JailBreak: still a refusal (recorded in `opened`)
+            try:
+                request._pre_open_hook(target)
+                hook = True
+            except (errors.JailBreak, urlutils.InvalidURL):
+                hook = False
+            try:
+                bzrdir.BzrDir.open_from_transport(target)
+                opened = "opened"
+            except errors.JailBreak:
+                opened = "JailBreak"
+            except urlutils.InvalidURL:
+                opened = "InvalidURL"
+            except errors.NotBranchError:
+                opened = "NotBranchError"
+        finally:
+            r.teardown_jail()
+        return [hook, target.base[len(jr[inp["csrv"]]):].rstrip("/").encode("utf-8"), opened]
     if inp["kind"] == "jail":
         from breezy import transport as _mod_transport
         from breezy.bzr import bzrdir
@@ -319,6 +413,9 @@ def _segs(l):
 
 
 def model_term(inp):
+    if inp["kind"] == "jail2":
+        return (f"run_jail2 {coq_bool(inp['jail'])} {coq_N(inp['rsrv'])} {_cb(inp['root'])} "
+                f"{coq_N(inp['csrv'])} {_cb(inp['cand'])}")
     if inp["kind"] == "jail":
         allowed = f"(Some [(0%N, {_segs(inp['root'])})])" if inp["jail"] else "None"
         return f"run_jail {allowed} ({coq_N(inp['server'])}, {_segs(inp['target'])})"
@@ -330,6 +427,8 @@ def impl_obs(inp, obs):
         return obs
     if inp["kind"] == "jail":
         return obs[0]
+    if inp["kind"] == "jail2":
+        return obs[:2]
     return obs
 
 
@@ -337,6 +436,19 @@ def oracle(inp, obs):
     """Rejected, or the resolved local path is inside the served directory."""
     if isinstance(obs, Err):
         return "driver error " + str(obs)
+    if inp["kind"] == "jail2":
+        hook, base, opened = obs
+        rr = inp["real_root"]
+        outside = inp["rsrv"] != inp["csrv"] or inp["real"][:len(rr)] != rr
+        if inp["jail"] and outside:
+            if opened == "opened":
+                return (f"with the jail at {inp['root']!r} (server {inp['rsrv']}), BzrDir.open_from_transport of the location "
+                        f"{inp['cand']!r} (server {inp['csrv']}, really {'/'.join(inp['real'])!r}) OUTSIDE the jail returned a control dir")
+            if hook:
+                return f"_pre_open_hook accepted {inp['cand']!r} outside the jail {inp['root']!r}"
+        if not outside and opened != "opened":
+            return f"open of {inp['cand']!r} inside the jail {inp['root']!r} was refused: {opened}"
+        return None
     if inp["kind"] == "jail":
         hook, opened = obs
         inside = inp["server"] == 0 and inp["target"][:len(inp["root"])] == inp["root"]
@@ -364,7 +476,7 @@ def finding_matches(fid, inp, obs, why):
 
 
 def nontrivial(inp, obs):
-    if inp["kind"] == "jail":
+    if inp["kind"] in ("jail", "jail2"):
         return inp["jail"]
     p = bytes(inp["path"])
     return any(c in p for c in b".%~\x00") or any(c >= 128 for c in p)
@@ -374,7 +486,7 @@ def distribution(inputs, observations):
     d = {"plain": 0, "vfs": 0, "jail": 0, "rejected_by_translate": 0, "read_a_file": 0, "read_outside": 0,
          "resolves_above": 0, "userdir_expanded": 0, "by_root": {}}
     for i, o in zip(inputs, observations):
-        if i["kind"] == "jail":
+        if i["kind"] in ("jail", "jail2"):
             d["jail"] += 1
             continue
         d["vfs" if i["vfs"] else "plain"] += 1
